@@ -402,3 +402,28 @@ META = {
     "technique": "Lean 4 proof (segment-wise read-back lemmas, induction over the extended list, decide over the "
                  "presence table) + differential correspondence + real-session glue",
 }
+
+
+def replay(data):
+    """./check C33 --replay <file>: pack and decode the recorded attribute set with the bound tree"""
+    from paramiko.message import Message
+    from paramiko.sftp_attr import SFTPAttributes as A
+    from pv.core import unhx
+
+    d = data["case"]
+    if "ext" not in d:
+        print("replay covers attribute-set cases only; re-run ./check C33 with VERIF_SEED=%s" % data.get("seed"))
+        return 0
+    ext = [] if d["ext"] == "-" else [tuple(unhx(x) for x in kv.split("=")) for kv in d["ext"].split(",")]
+    c = Case(d["size"], d["uid"], d["gid"], d["mode"], d["atime"], d["mtime"], ext, d.get("tag", "valid"))
+    m = Message()
+    c.build(A)._pack(m)
+    b = A._from_msg(Message(m.asbytes()))
+    want = ([None if v is None else int(v) for v in c.fields()], [(asb(k), asb(v)) for k, v in c.ext])
+    if not c.presence()[1]:
+        want[0][1] = want[0][2] = None
+    if not c.presence()[3]:
+        want[0][4] = want[0][5] = None
+    got = ([b.st_size, b.st_uid, b.st_gid, b.st_mode, b.st_atime, b.st_mtime], list(b.attr.items()))
+    print("sent    %r\ndecoded %r\n-> %s" % (want, got, "holds" if got == want else "FAILS"))
+    return 0 if got == want else 1
